@@ -319,10 +319,13 @@ def dec (P : Prims) : Dec TxIn := fun bs =>
   | .panic s => .panic s
 
 /-- canonical in-memory inputs (witness aside): index below 2^30, or the coinbase index with no flags;
+    index 2^30-1 with *both* flags is excluded because it serializes as 0xffffffff, the coinbase index,
+    which by definition carries no flags (the format cannot represent it; same in Elements Core);
     a null issuance is the all-default one (a stray nonce/entropy is not serialized) -/
 def wfBody (P : Prims) (i : TxIn) : Prop :=
   i.previousOutput.txid.length = 32 ∧
-  (i.previousOutput.vout < 2^30 ∨ (i.previousOutput.vout = 0xffffffff ∧ i.isPegin = false ∧ i.hasIssuance = false)) ∧
+  ((i.previousOutput.vout < 2^30 ∧ ¬ (i.previousOutput.vout = 2^30 - 1 ∧ i.isPegin = true ∧ i.hasIssuance = true)) ∨
+   (i.previousOutput.vout = 0xffffffff ∧ i.isPegin = false ∧ i.hasIssuance = false)) ∧
   i.scriptSig.length ≤ maxVecSize ∧ i.sequence < 2^32 ∧
   (if i.hasIssuance then i.assetIssuance.wf P else i.assetIssuance = AssetIssuance.null)
 def wf (P : Prims) (i : TxIn) : Prop := i.wfBody P ∧ i.witness.wf P
